@@ -118,10 +118,21 @@ func TestLockObs(t *testing.T) {
 	}
 	bin := filepath.Join(tmp, "comp.instr.test")
 	t0 := time.Now()
-	build := exec.Command("go", "test", "-c", "-modfile", filepath.Join(goDir, ".instr.mod"), "-tags", "verif", "-o", bin, "./comp")
-	build.Dir = goDir
-	build.Env = append(os.Environ(), "CGO_ENABLED=0", "GOFLAGS=-mod=mod")
-	if out, err := build.CombinedOutput(); err != nil {
+	var out []byte
+	for attempt := 0; attempt < 4; attempt++ {
+		build := exec.Command("go", "test", "-c", "-modfile", filepath.Join(goDir, ".instr.mod"), "-tags", "verif", "-o", bin, "./comp")
+		build.Dir = goDir
+		build.Env = append(os.Environ(), "CGO_ENABLED=0", "GOFLAGS=-mod=mod")
+		out, err = build.CombinedOutput()
+		// the Go build cache is shared with other runs on this machine which trim it: an entry that
+		// vanished between lookup and use makes the go tool fail ("open …/go-build/…: no such file");
+		// that says nothing about the tree — build again
+		if err == nil || !(strings.Contains(string(out), "go-build") && strings.Contains(string(out), "no such file or directory")) {
+			break
+		}
+		time.Sleep(2 * time.Second)
+	}
+	if err != nil {
 		tail := string(out)
 		if len(tail) > 1500 {
 			tail = tail[len(tail)-1500:]
